@@ -1216,6 +1216,37 @@ def r14k(ctx):
                        f"identifier — an element stored under one of them is replaced, skipped or returned for the other")
 
 
+def r14l(ctx):
+    """A lookup looks for the name it was asked for.
+
+    The names that are stored are the names the caller gave (`insert_style`, `Style(name=…)`, `set_named_range` store them verbatim), so a
+    lookup finds them only under the same string.  A `get_*` method that first "normalises" the name it received — spaces to `_20_`, case,
+    blanks — asks the document for another identifier: the element stored under the given name is not found, and one stored under the
+    rewritten name is returned for it.  Rule: in every `get_*` / `_get_*` method, a parameter whose name says it is a name
+    (`name`, `name_or_element`, `table_name`, `display_name` …) is never re-bound to the result of a lossy string call on itself.
+    """
+    repo = ctx.repo
+    ctx.rule("R14l", "lookup methods do not rewrite the name they are given before searching", floor=30)
+    for f in repo.all_funcs():
+        if not f.name.lstrip("_").startswith("get"):
+            continue
+        params = {a.arg for a in f.all_params() if "name" in a.arg}
+        if not params:
+            continue
+        bad = []
+        for a in walk_no_nested(f.node):
+            if isinstance(a, ast.Assign) and len(a.targets) == 1 and isinstance(a.targets[0], ast.Name) and a.targets[0].id in params:
+                v = a.value
+                if any(isinstance(c, ast.Call) and ((isinstance(c.func, ast.Attribute) and c.func.attr in LOSSY) or call_name(c) in LOSSY_FUNCS)
+                       and any(isinstance(x, ast.Name) and x.id == a.targets[0].id for x in ast.walk(c)) for c in ast.walk(v)):
+                    bad.append(a)
+        ctx.instance("R14l", f"{f.file}:{f.ident}", "searches for the name as given", ok=not bad, nontrivial=True, line=f.node.lineno)
+        for a in bad[:1]:
+            ctx.report("R14l", f, a, norm(a, 50),
+                       f"{f.ident} rewrites the name it was asked for (`{norm(a, 50)}`) before searching: names are stored as the caller gave them, so the element stored under the given "
+                       f"string is not found and another one, stored under the rewritten string, is returned for it")
+
+
 def run(ctx):
     r14a(ctx)
     r14c(ctx)
@@ -1228,6 +1259,7 @@ def run(ctx):
     r14i(ctx)
     r14j(ctx)
     r14k(ctx)
+    r14l(ctx)
     # a named range is found under its table name only if the address writer and reader agree on how that name is quoted (rule shared with C19)
     from .c19 import r19b, r19f
     r19b(ctx)
@@ -1240,6 +1272,8 @@ from ..selftest import Seed, unparse_seed  # noqa: E402
 _XQ = "src/odfdo/utils/xpath_query.py"
 _EL = "src/odfdo/element.py"
 SEEDS = [
+    Seed("Document.get_style looks a name with spaces up in its _20_ spelling", "fault", "src/odfdo/document.py",
+         "        # 1. content.xml\n", "        if isinstance(name_or_element, str):\n            name_or_element = name_or_element.replace(\" \", \"_20_\")\n        # 1. content.xml\n", "R14l"),
     Seed("append_named_range replaces every range whose name matches case-insensitively", "fault", _EL,
          "        current = named_expressions.get_element(\n            f\"table:named-range[@table:name={xpath_string_literal(named_range.name)}][1]\"  # type:ignore\n        )\n        if current:\n            named_expressions.delete(current)",
          "        for current in named_expressions.get_elements(\"table:named-range\"):\n            if str(current.name).lower() == str(named_range.name).lower():\n                named_expressions.delete(current)", "R14k"),
